@@ -169,6 +169,12 @@ def case_st(draw):
         sm["window"] = w
     cdt = {"smoother": sm} if sm or draw(st.booleans()) else {}
     cvar = sv["vars"][q["dims"][1]["var"]]
+    # subtotal columns on the date dimension (half-years over waves ...): not periods of the
+    # series, but they have a scale mean too
+    if xforms.can_insert(cvar) and draw(st.integers(0, 2)) == 0:
+        v, m = xforms.dim_ids(cvar)
+        cdt["insertions"] = draw(xforms.insertions_st(v, m, max_ins=3, allow_malformed=False,
+                                                      allow_diff=False))
     refs = xforms.element_refs(cvar)
     display = {}
     if draw(st.booleans()):
@@ -265,6 +271,31 @@ def judge_random(case, rec):
             rec.violation("smoothed_columns_scale_mean[%d] = %r; scale mean of the smoothed "
                           "proportions %r is %r" % (t, got[t], SP[:, t].tolist(), want),
                           sig or "scale-mean")
+    # --- the same relation on inserted subtotal columns
+    SPall = np.asarray(ref.smoothed_column_proportions, dtype=float)
+    for pos, signed in enumerate(cB):
+        if signed >= 0:
+            continue
+        rec.event("subtotal column on the smoothed dimension")
+        num = den = 0.0
+        nan_seen = False
+        for i, v in enumerate(values):
+            if v is None:
+                continue
+            p_ = SPall[rows_pos[i], pos]
+            if math.isnan(p_):
+                nan_seen = True
+                continue
+            num += v * p_
+            den += p_
+        want = None if (nan_seen or den == 0) else num / den
+        g = np.asarray(ssm, dtype=float)[pos]
+        rec.compared()
+        if not close(g, want):
+            rec.violation("smoothed_columns_scale_mean of subtotal column %d = %r; scale mean "
+                          "of its smoothed proportions %r is %r" % (
+                              pos, g, SPall[rows_pos, pos].tolist(), want),
+                          sig or "scale-mean-subtotal-column")
 
 
 SUBCHECKS = [
